@@ -34,128 +34,62 @@ def run(F, R, tier):
     # ------------------------------------------------------------------ R1 validate = verify_signature ; validate_decoded_credential
     r1 = R.rule("C02-R1", "T2+T3", "validate: Ok only through verify_signature ✓ then validate_decoded_credential ✓ on the verified token, same issuer, caller's options")
     fn = V + "::validate"
-    h = F.hir(fn)
-    if r1.anchor(h, fn):
-        env = H.Env(h)
-        L.require_tried_before_success(r1, F, fn, [("verify_signature", V + "::verify_signature")], delegate=None)
-        tree, infos = L.exit_infos(h)
-        for e in infos:
-            if not L.is_success_exit(e):
-                continue
-            n = H.strip(e.node)
-            ok = n.get("k") in ("call", "mcall") and H.fn_name(n) == V + "::validate_decoded_credential"
-            r1.require(ok, (fn, "delegates"), "validate's success value is not the result of validate_decoded_credential", n.get("sp"))
-            if ok:
-                a = H.call_args(n)
-                o0 = H.origins(a[0], env)
-                r1.site("validate → validate_decoded_credential(token ← %s)" % sorted(map(str, o0)), n["sp"])
-                r1.require(o0 == {("call", V + "::verify_signature")}, (fn, "token-arg"), "the token validated is not the one verify_signature returned: %s" % sorted(map(str, o0)))
-                r1.require(only(H.origins(a[1], env, extra=re.compile(r"from_ref$")), "param", "issuer"), (fn, "issuer-arg"), "validate_decoded_credential is not given the caller's issuer document")
-                r1.require(H.origins(a[2], env) == {("param", "options")}, (fn, "options-arg"), "validate_decoded_credential is not given the caller's options")
-                r1.require(H.origins(a[3], env) == {("param", "fail_fast")}, (fn, "failfast-arg"), "validate_decoded_credential is not given the caller's fail_fast")
-        for c in H.calls(h, V + "::verify_signature"):
-            a = H.call_args(c)
-            r1.require(H.origins(a[1], env) == {("param", "credential_jwt")}, (fn, "jwt-arg"), "verify_signature is not given the caller's JWT")
-            r1.require(only(H.origins(a[2], env, extra=re.compile(r"from_ref$")), "param", "issuer"), (fn, "vs-issuer-arg"), "verify_signature is not given the caller's issuer")
-            r1.require(H.origins(a[3], env) == {("param", "options", "verification_options")}, (fn, "vs-options-arg"), "verify_signature is not given options.verification_options")
-            r1.site("validate → verify_signature(jwt, issuer, options.verification_options)", c["sp"])
-    # verify_signature delegates to verify_signature_with_verifier with the same arguments
-    fn2 = V + "::verify_signature"
-    h2 = F.hir(fn2)
-    if r1.anchor(h2, fn2):
-        env = H.Env(h2)
-        for n, oc in H.exits(h2):
-            n = H.strip(n)
-            ok = n.get("k") == "call" and H.fn_name(n) == V + "::verify_signature_with_verifier"
-            r1.require(ok, (fn2, "delegates"), "verify_signature does not delegate to verify_signature_with_verifier")
-            if ok:
-                a = n["args"]
-                r1.require([sorted(H.origins(x, env)) for x in a[1:]] == [[("param", "credential")], [("param", "trusted_issuers")], [("param", "options")]],
-                           (fn2, "args"), "verify_signature does not forward (credential, trusted_issuers, options)")
-                r1.site("verify_signature → verify_signature_with_verifier", n["sp"])
-    r1.floor(4)
-
-    # ------------------------------------------------------------------ R2 verify_signature_with_verifier
     r2 = R.rule("C02-R2", "T2+T6", "verify_signature_with_verifier: decode ✓, parse_jwk ✓, verify_decoded_signature ✓, extract_issuer ✓ and issuer == method_id.did() dominate Ok")
-    fn = V + "::verify_signature_with_verifier"
-    h = F.hir(fn)
-    if r2.anchor(h, fn):
-        env = H.Env(h)
-        L.require_tried_before_success(r2, F, fn, [
-            ("decode", V + "::decode"), ("parse_jwk", V + "::parse_jwk"), ("verify_decoded_signature", V + "::verify_decoded_signature"), ("extract_issuer", U + "::extract_issuer")])
-        for pat, lab in ((V + "::decode", "decode"), (V + "::parse_jwk", "parse_jwk"), (V + "::verify_decoded_signature", "verify_decoded_signature")):
-            L.mir_success_dominates(r2, F, fn, pat, lab)
-        tree, infos = L.exit_infos(h)
-        for e in infos:
-            if not L.is_success_exit(e):
+    if r1.anchor(F.hir(fn), fn):
+        # end-to-end by abstract evaluation: validate → verify_signature → verify_signature_with_verifier → decode / parse_jwk /
+        # verify_decoded_signature → verify_signature_raw → JwsValidationItem::verify, all inlined; only the leaves are opaque
+        OPQ = (r"Decoder::decode_compact_serialization$|JwtCredentialValidator::(parse_jwk|validate_decoded_credential)$|JwsValidationItem::verify$|from_json_slice$|"
+               r"try_into_credential$|extract_issuer$|DIDUrl::did$")
+        tab = SR.Table(F, fn, opaque=OPQ, rule=r1, inline_depth=7, max_paths=6000)
+        acc = [q for q in tab.paths if not SR.is_failure(q.ret)]
+        r1.require(bool(acc) or not tab.paths, (fn, "no-success"), "validate has no accepting path")
+        OPT = SR.param("options")
+        for q in acc:
+            def one(pat, label, rule=r2):
+                es = [e for e in q.calls(pat) if q.succeeded(e) is True]
+                if not rule.require(len(es) == 1, (V + "::verify_signature_with_verifier", "missing-before-success", label), "an accepting path of validate has no successful %s" % label):
+                    return None
+                return es[0]
+            dec = one(r"decode_compact_serialization$", "decode")
+            pj = one(r"JwtCredentialValidator::parse_jwk$", "parse_jwk")
+            vf = one(r"JwsValidationItem::verify$", "verify_decoded_signature")
+            fj = one(r"from_json_slice$", "from_json_slice")
+            tic = one(r"try_into_credential$", "try_into_credential")
+            exi = one(r"extract_issuer$", "extract_issuer")
+            if None in (dec, pj, vf, fj, tic, exi):
                 continue
-            oo = H.origins(e.node, env)
-            r2.require(oo == {("call", V + "::verify_decoded_signature")}, (fn, "returns"), "the returned token is not the verified one: %s" % sorted(map(str, oo)))
-            eq = False
-            for c in e.conds:
-                if c[0] != "if":
-                    continue
-                rel = H.relation(c[1], env,
-                                 lambda o: o == {("call", U + "::extract_issuer")},
-                                 lambda o: only(o, "call", V + "::parse_jwk") or (bool(o) and all(x[0] == "call" and x[1] == V + "::parse_jwk" for x in o)),
-                                 accessors=ACC)
-                if rel is None:
-                    continue
-                holds_eq = (rel == "Ne" and c[2] is False) or (rel == "Eq" and c[2] is True)
-                if holds_eq:
-                    eq = True
-                    r2.site("Ok guarded by issuer_id == method_id.did()", H.strip(c[1]).get("sp"))
-            r2.require(eq, (fn, "issuer-eq-method-did"), "Ok is reachable without `issuer == method_id.did()` having been established (IdentifierMismatch check missing or weakened)", e.node.get("sp"))
-        for c in H.calls(h, U + "::extract_issuer"):
-            oo = H.origins(c["args"][0], env)
-            r2.require(oo == {("call", V + "::verify_decoded_signature", "credential")} or only(oo, "call", V + "::verify_decoded_signature"), (fn, "extract_issuer-arg"),
-                       "extract_issuer is not applied to the verified credential: %s" % sorted(map(str, oo)))
-        for c in H.calls(h, V + "::verify_decoded_signature"):
-            a = c["args"]
-            o = [H.origins(x, env) for x in a]
-            r2.site("verify_decoded_signature(decoded ← %s, key ← %s)" % (sorted(map(str, o[0])), sorted(map(str, o[1]))), c["sp"])
-            r2.require(o[0] == {("call", V + "::decode")}, (fn, "vds-decoded"), "the item verified is not the decoded credential")
-            r2.require(only(o[1], "call", V + "::parse_jwk"), (fn, "vds-key"), "the verifying key is not the one parse_jwk resolved: %s" % sorted(map(str, o[1])))
-            r2.require(o[2] == {("param", "signature_verifier")}, (fn, "vds-verifier"), "the caller's verifier is not used")
-        for c in H.calls(h, V + "::parse_jwk"):
-            o = [H.origins(x, env) for x in c["args"]]
-            r2.require(o[0] == {("call", V + "::decode")} and o[1] == {("param", "trusted_issuers")} and o[2] == {("param", "options")}, (fn, "parse_jwk-args"),
-                       "parse_jwk is not given (decoded, trusted_issuers, options): %s" % [sorted(map(str, x)) for x in o])
-        for c in H.calls(h, V + "::decode"):
-            o = H.origins(c["args"][0], env, extra=re.compile(r"Jwt::as_str$"))
-            r2.require(o == {("param", "credential")}, (fn, "decode-arg"), "decode is not given the caller's credential JWT")
-    # verify_decoded_signature and verify_signature_raw
-    fn = V + "::verify_decoded_signature"
-    h = F.hir(fn)
-    if r2.anchor(h, fn):
-        env = H.Env(h)
-        L.require_tried_before_success(r2, F, fn, [("verify_signature_raw", V + "::verify_signature_raw"), ("from_json_slice", re.compile(r"from_json_slice$")),
-                                                   ("try_into_credential", re.compile(r"CredentialJwtClaims::try_into_credential$"))])
-        L.mir_success_dominates(r2, F, fn, V + "::verify_signature_raw", "verify_signature_raw")
-        for c in H.calls(h, re.compile(r"from_json_slice$")):
-            oo = H.origins(H.call_args(c)[0], env)
-            r2.site("claims parsed from %s" % sorted(map(str, oo)), c["sp"])
-            r2.require(only(oo, "call", V + "::verify_signature_raw") and all(o[-1] == "claims" for o in oo), (fn, "claims-source"), "the credential claims are not parsed from the verified DecodedJws.claims: %s" % sorted(map(str, oo)))
-        for s in H.struct_lits(h):
-            if s.get("ty", "").endswith("DecodedJwtCredential"):
-                fl = {f["name"]: H.origins(f["e"], env, extra=re.compile(r"Box::new$")) for f in s["fields"]}
-                r2.require(only(fl.get("credential", set()), "call") and all("try_into_credential" in o[1] for o in fl["credential"]), (fn, "credential-field"), "returned credential is not the one reconstructed from the verified claims")
-                r2.require(only(fl.get("header", set()), "call", V + "::verify_signature_raw"), (fn, "header-field"), "returned header is not the verified protected header")
-                r2.site("DecodedJwtCredential{credential ← try_into_credential, header ← verified protected}", s["sp"])
-        for c in H.calls(h, V + "::verify_signature_raw"):
-            o = [H.origins(x, env) for x in c["args"]]
-            r2.require(o == [{("param", "decoded")}, {("param", "public_key")}, {("param", "signature_verifier")}], (fn, "raw-args"), "verify_signature_raw is not given (decoded, public_key, signature_verifier)")
-    fn = V + "::verify_signature_raw"
-    h = F.hir(fn)
-    if r2.anchor(h, fn):
-        env = H.Env(h)
-        for n, oc in H.exits(h):
-            oo = H.origins(n, env)
-            r2.require(oo == {("call", ITEM + "::verify")}, (fn, "returns"), "verify_signature_raw does not return the result of JwsValidationItem::verify: %s" % sorted(map(str, oo)))
-        for c in H.calls(h, ITEM + "::verify"):
-            o = [H.origins(x, env) for x in H.call_args(c)]
-            r2.require(o == [{("param", "decoded")}, {("param", "signature_verifier")}, {("param", "public_key")}], (fn, "verify-args"), "JwsValidationItem::verify is not called as decoded.verify(signature_verifier, public_key)")
-            r2.site("verify_signature_raw → decoded.verify(verifier, key).map_err(..)", c["sp"])
+            item = ("payload", dec.result.t, "Ok", 0)
+            r2.require(SR.pure(dec.args[1], SR.param("credential_jwt")) and sym.term(dec.args[2]) == ("ctor", "None"), (fn, "jwt-arg"), "the token decoded is not the caller's JWT (attached payload): %r" % (dec.args[1],))
+            issuers = sym.term(pj.args[1])
+            r2.require(sym.term(pj.args[0]) == item, (V + "::verify_signature_with_verifier", "parse_jwk-args"), "parse_jwk is not given the decoded token")
+            r1.require(SR.pure(issuers, SR.param("issuer"), conv=re.compile(r"(from_ref|as_ref|from|into)$")), (fn, "vs-issuer-arg"), "the issuer document used for the key is not the caller's issuer: %s" % sym.fmt(issuers))
+            r1.require(sym.term(pj.args[2]) == SR.fld("verification_options", base=OPT), (fn, "vs-options-arg"), "parse_jwk is not given options.verification_options")
+            pjp = ("payload", pj.result.t, "Ok", 0)
+            r2.require(sym.term(vf.args[0]) == item, (V + "::verify_signature_with_verifier", "vds-decoded"), "the item verified is not the decoded credential")
+            r2.require(sym.term(vf.args[1]) == SR.fld("0"), (V + "::verify_signature_with_verifier", "vds-verifier"), "the validator's verifier is not used: %r" % (vf.args[1],))
+            r2.require(sym.term(vf.args[2]) == ("field", pjp, "0"), (V + "::verify_signature_with_verifier", "vds-key"), "the verifying key is not the one parse_jwk resolved: %r" % (vf.args[2],))
+            verified = ("payload", vf.result.t, "Ok", 0)
+            r2.require(SR.pure(fj.args[0], ("field", verified, "claims")), (V + "::verify_decoded_signature", "claims-source"), "the claims are not parsed from the verified payload")
+            r2.require(sym.term(tic.args[0]) == ("payload", fj.result.t, "Ok", 0), (V + "::verify_decoded_signature", "credential-field"), "the credential is not built from the verified claims")
+            credv = ("payload", tic.result.t, "Ok", 0)
+            r2.require(sym.term(exi.args[0]) == credv, (V + "::verify_signature_with_verifier", "issuer-of"), "the issuer extracted is not that of the verified credential")
+            eq = any(a[0] == "eq" and c is True and any(SR.derives(x, exi.result.t) for x in (a[1], a[2])) and any(x[:1] == ("call",) and x[1].endswith("DIDUrl::did") and x[2] == (("field", pjp, "1"),) for x in (a[1], a[2]))
+                     for (a, c, _, _) in q.decisions)
+            r2.require(eq, (V + "::verify_signature_with_verifier", "issuer-eq-method-did"), "Ok is reachable without `issuer == method_id.did()` having been established")
+            vdc = [e for e in q.calls(r"validate_decoded_credential$")]
+            if r1.require(len(vdc) == 1 and SR.derives(q.ret, vdc[0].result.t), (fn, "delegates"), "validate's success value is not the result of validate_decoded_credential"):
+                a = vdc[0].args
+                tok = a[0]
+                r1.require(isinstance(tok, sym.St) and sym.term(tok.f.get("credential")) == credv and SR.derives(tok.f.get("header"), ("field", verified, "protected")), (fn, "token-arg"),
+                           "the token validated is not the one whose signature was verified: %r" % (tok,))
+                r1.require(SR.pure(a[1], SR.param("issuer"), conv=re.compile(r"(from_ref|as_ref|from|into)$")), (fn, "issuer-arg"), "validate_decoded_credential is not given the caller's issuer")
+                r1.require(sym.term(a[2]) == OPT, (fn, "options-arg"), "validate_decoded_credential is not given the caller's options")
+                r1.require(sym.term(a[3]) == SR.param("fail_fast"), (fn, "failfast-arg"), "validate_decoded_credential is not given the caller's fail_fast")
+        for k_ in range(4):
+            r1.site("validate (end-to-end) obligation %d on %d accepting path(s)" % (k_ + 1, len(acc)))
+        for k_ in range(16):
+            r2.site("signature chain obligation %d on %d accepting path(s)" % (k_ + 1, len(acc)))
+    r1.floor(4)
     r2.floor(16)
 
     # ------------------------------------------------------------------ R3 parse_jwk
